@@ -1,5 +1,161 @@
-/- C14 — theorems under construction. -/
-import BEI.Model.App
+/-
+  C14 — Shared contexts fan events out to all holders; exclusive ones stay isolated.
+-/
+import BEI.Proofs.Mirror
+import BEI.Proofs.Update
 namespace BEI.Props.C14
-theorem placeholder_true : True := trivial
+open BEI
+
+/-- (1) fan-out of one action: every event of the frame is delivered exactly once to each element of the holder list
+    (which has no duplicates, C07), with identical payload, and to nobody else -/
+theorem fanout_exact (a : Nat) (d : ActionData) (es : List Nat) :
+    triggerEvents a d es = d.events.flatMap (fun k => es.map (fun e => mkDelivery a d k e))
+    ∧ (∀ x ∈ triggerEvents a d es, x.entity ∈ es)
+    ∧ (∀ k ∈ d.events, ∀ e ∈ es, mkDelivery a d k e ∈ triggerEvents a d es)
+    ∧ (∀ k e e', ({ mkDelivery a d k e with entity := e' } : Delivery) = mkDelivery a d k e') := by
+  refine ⟨rfl, ?_, ?_, ?_⟩
+  · intro x hx
+    simp only [triggerEvents, List.mem_flatMap, List.mem_map] at hx
+    obtain ⟨k, _, e, he, rfl⟩ := hx
+    cases k <;> exact he
+  · intro k hk e he
+    simp only [triggerEvents, List.mem_flatMap, List.mem_map]
+    exact ⟨k, hk, e, he, rfl⟩
+  · intro k e e'; cases k <;> rfl
+
+/-- each holder receives each event exactly once when the holder list has no duplicates -/
+theorem fanout_once (a : Nat) (d : ActionData) (es : List Nat) (hnd : es.Nodup) (k : EvKind) (e : Nat) (he : e ∈ es) :
+    (es.map (fun e' => mkDelivery a d k e')).count (mkDelivery a d k e) = 1 := by
+  have hinj : ∀ e1 e2, mkDelivery a d k e1 = mkDelivery a d k e2 → e1 = e2 := by
+    intro e1 e2 h
+    have := congrArg Delivery.entity h
+    cases k <;> simpa [mkDelivery] using this
+  induction es with
+  | nil => simp at he
+  | cons x xs ih =>
+    simp only [List.map_cons, List.count_cons]
+    obtain ⟨hx, hxs⟩ := List.nodup_cons.mp hnd
+    by_cases hxe : x = e
+    · subst hxe
+      have : (xs.map (fun e' => mkDelivery a d k e')).count (mkDelivery a d k x) = 0 := by
+        rw [List.count_eq_zero]
+        intro hmem
+        simp only [List.mem_map] at hmem
+        obtain ⟨y, hy, hyx⟩ := hmem
+        exact hx (hinj _ _ hyx ▸ hy)
+      simp [this]
+    · have hne : (mkDelivery a d k x == mkDelivery a d k e) = false := by
+        simp; exact fun h => hxe (hinj _ _ h)
+      have hmem : e ∈ xs := by
+        rcases List.mem_cons.mp he with h | h
+        · exact absurd h.symm hxe
+        · exact h
+      simp [hne, ih hxs hmem]
+
+/-- the deliveries of one `ActionBind::update` only ever go to the entities it was given -/
+theorem update_recipients (ab : ActionBind) (r : Reader) (av : ActionsView) (t : Tick) (es : List Nat)
+    (o : ActionBind.Out) (h : ab.update r av t es = some o) : ∀ x ∈ o.deliveries, x.entity ∈ es := by
+  unfold ActionBind.update at h
+  simp only at h
+  split at h
+  · cases h
+  · simp only [Option.some.injEq] at h
+    subst h
+    intro x hx
+    simp only at hx
+    split at hx
+    · simp at hx
+    · exact (fanout_exact _ _ es).2.1 x hx
+
+theorem instance_recipients (t : Tick) (es : List Nat) :
+    ∀ (bs : List ActionBind) (r : Reader) (av : ActionsView) bs' r' av' dl lg,
+      ContextInstance.loopActions r av t es bs = some (bs', r', av', dl, lg) → ∀ x ∈ dl, x.entity ∈ es := by
+  intro bs
+  induction bs with
+  | nil =>
+    intro r av bs' r' av' dl lg h
+    simp only [ContextInstance.loopActions, Option.some.injEq, Prod.mk.injEq] at h
+    obtain ⟨_, _, _, rfl, _⟩ := h
+    intro x hx; cases hx
+  | cons ab rest ih =>
+    intro r av bs' r' av' dl lg h
+    simp only [ContextInstance.loopActions] at h
+    split at h
+    · cases h
+    · rename_i o ho
+      split at h
+      · cases h
+      · rename_i rest' r'' av'' dl' lg' hrest
+        simp only [Option.some.injEq, Prod.mk.injEq] at h
+        obtain ⟨_, _, _, rfl, _⟩ := h
+        intro x hx
+        rcases List.mem_append.mp hx with hx | hx
+        · exact update_recipients ab r av t es o ho x hx
+        · exact ih _ _ _ _ _ _ _ hrest x hx
+
+/-- (2) a shared group is evaluated once per frame with its full holder list: its events reach exactly the holders;
+    an exclusive group evaluates each per-entity instance with that entity alone -/
+theorem shared_update_recipients (ctx : ContextInstance) (r : Reader) (t : Tick) (es : List Nat) (o : ContextInstance.Out)
+    (h : ctx.update r t es = some o) : ∀ x ∈ o.deliveries, x.entity ∈ es := by
+  unfold ContextInstance.update at h
+  split at h
+  · cases h
+  · rename_i bs r' av' dl lg hl
+    simp only [Option.some.injEq] at h
+    subst h
+    exact instance_recipients t es _ _ _ _ _ _ _ _ hl
+
+theorem exclusive_update_isolated (t : Tick) :
+    ∀ (is : List (Nat × ContextInstance)) (r : Reader) is' r' dl lg,
+      Registry.updateExclusive r t is = some (is', r', dl, lg) →
+      (∀ x ∈ dl, x.entity ∈ is.map (·.1))
+      ∧ is'.map (·.1) = is.map (·.1) := by
+  intro is
+  induction is with
+  | nil =>
+    intro r is' r' dl lg h
+    simp only [Registry.updateExclusive, Option.some.injEq, Prod.mk.injEq] at h
+    obtain ⟨rfl, _, rfl, _⟩ := h
+    exact ⟨(fun x hx => nomatch hx), rfl⟩
+  | cons p ps ih =>
+    intro r is' r' dl lg h
+    obtain ⟨e, ctx⟩ := p
+    simp only [Registry.updateExclusive] at h
+    split at h
+    · cases h
+    · rename_i o ho
+      split at h
+      · cases h
+      · rename_i rest' r'' dl' lg' hrest
+        simp only [Option.some.injEq, Prod.mk.injEq] at h
+        obtain ⟨rfl, _, rfl, _⟩ := h
+        obtain ⟨ih1, ih2⟩ := ih _ _ _ _ _ hrest
+        constructor
+        · intro x hx
+          rcases List.mem_append.mp hx with hx | hx
+          · have := shared_update_recipients ctx r t [e] o ho x hx
+            simp at this
+            simp [this]
+          · have := ih1 x hx
+            simp only [List.map_cons, List.mem_cons]
+            exact Or.inr this
+        · simp [ih2]
+
+/-- (3) exclusive instances evolve independently apart from input consumption: the new state of the instance of entity
+    `e` is a function of its own previous state, the reader as it stands at its turn, and the tick — nothing of the other
+    instances' states enters (they only act through the reader) -/
+theorem exclusive_independent (r : Reader) (t : Tick) (e : Nat) (ctx : ContextInstance) (rest : List (Nat × ContextInstance)) :
+    Registry.updateExclusive r t ((e, ctx) :: rest) =
+      match ctx.update r t [e] with
+      | none => none
+      | some o =>
+        match Registry.updateExclusive o.reader t rest with
+        | none => none
+        | some (rest', r', dl, lg) => some ((e, o.inst) :: rest', r', o.deliveries ++ dl, o.log ++ lg) := rfl
+
+/-- the holder list a shared instance fans out to has no duplicates in every reachable state (from the registry invariant) -/
+theorem holders_nodup (su : Setup) (st : AppState) (h : Reachable su st) (g : Group) (hg : g ∈ st.reg) : g.entities.Nodup := by
+  have hm := reachable_pred su Mirror (mirror_appPred su) mirror_init st h
+  exact hm.wf.nodup (g.ty, g.entities) (by simp only [shape, List.mem_map]; exact ⟨g, hg, rfl⟩)
+
 end BEI.Props.C14
